@@ -119,6 +119,9 @@ pub fn c15_sock_test(w: &mut SockWorker, sc: &SockCut) -> Verdict {
     let probe = ConvCase { conv: gen_probe(), progs: vec![Prog::ok()], script: vec![Step::Send { from: 0, to: usize::MAX }, Step::HalfClose], transport: sc.case.transport };
     let pexp = expect(&probe);
     let (pobs, _) = w.run(&probe, &|_| false);
+    if pobs.timeout.as_deref().map(|t| t.contains("connect failed") && t.contains("refused")).unwrap_or(false) {
+        return fail("C15/sock/server-stopped-accepting", format!("after a client that vanished ({} after {} of {} bytes) a new connection to the same server is refused: {}", label, k, n, pobs.timeout.clone().unwrap_or_default()));
+    }
     if let Some(v) = engine_trouble(&pobs) {
         return v;
     }
